@@ -37,7 +37,57 @@ def profile_diff(c):
             c["viols"][sig] = {"sig": sig, "detail": "outcome digest of case %s:%s differs between mon-chk (overflow-checks on) and mon-rel (off)" % (o, i),
                                "stage": "%s:?" % o, "idx": int(i), "case": {"stage_ord": o, "idx": i}, "profile": "mon-rel"}
 
+def maporder_across_processes(c):
+    """every worker evaluates the same battery of map literals; the key order must not depend on the process"""
+    seen = {}
+    for n in c["notes_all"]:
+        if n.get("kind") == "maporder":
+            seen[n["text"]] = seen.get(n["text"], 0) + 1
+    c["counters"]["maporder_processes"] = sum(seen.values())
+    c["extra_cov"]["maporder_distinct_across_processes"] = len(seen)
+    if len(seen) > 1:
+        sig = "map-order|differs-across-processes"
+        c["viol_counts"][sig] = len(seen)
+        c["viols"][sig] = {"sig": sig, "detail": "the same map literals iterate in %d different key orders in different worker processes: %s" % (len(seen), list(seen)[:2]),
+                           "stage": "2:battery", "idx": 0, "case": {"orders": list(seen)[:4]}}
+
+
 CONFIG = {
+    "C07": {
+        "profiles": BOTH,
+        "post": [maporder_across_processes],
+        "rule": "one evaluation = one macro execution (plus the per-element body executions that predict it); distinct non-trivial = distinct (macro source, list) pairs "
+                "with a list of length >= 2, and distinct key sets of >= 2 keys",
+        "floors": {"quick": {"_evaluations": 50000, "lists_longer_than_32": 1000, "macro/reduce": 2000, "macro/exists_one": 2000, "maporder_processes": 2},
+                   "thorough": {"_evaluations": 500000}},
+        "assumptions": ASSUME_COMMON + [
+            "the body executed on its own (separate program, loop variable bound) is the reference for what the body means",
+            "a body failing on an element after the deciding one must not fail the macro"],
+        "technique": "runtime monitoring by differential decomposition: per-element executions of the body through the API + the defining fold in the harness; "
+                     "call-log monitor for visit order and early stop; repeated fresh-map and cross-process comparison for map iteration order",
+        "level_text": "Lists of length 0..64 (regularly beyond the call-depth limit) of every element type; bodies from the typed generator that read the loop variable, outer "
+                      "variables, a stored program and inner macros re-using the same variable name, with the loop variable's name also bound to a decoy outside; all seven macro forms. "
+                      "Result and the exact sequence of body evaluations must equal the fold over independent executions. Map iteration order is compared over 20 freshly built equal "
+                      "maps per key set and across the 16 worker processes. Exploration only.",
+        "level_note": "trusts the fold definitions in the harness (40 lines) and the logging functions",
+    },
+    "C08": {
+        "profiles": BOTH,
+        "rule": "one evaluation = one has()/coalesce() expression in one context under one binding configuration; distinct non-trivial = distinct "
+                "(source, configuration, leaf) triples with a path of depth >= 1 and distinct non-empty coalesce argument lists",
+        "floors": {"quick": {"_evaluations": 100000, "has_cfg/MidMissing(#)": 1000, "has_cfg/MidNotMap(#)": 1000, "has_cfg/RootUnbound": 1000,
+                             "coalesce_ctx/map": 4000, "has_other_failures": 50},
+                   "thorough": {"_evaluations": 300000}},
+        "assumptions": ASSUME_COMMON + [
+            "'intermediate is not a map': false or a propagated error is accepted, true never",
+            "paths through a method call on an unbound root are outside the quantifier and not generated"],
+        "technique": "runtime monitoring with a path-presence model over all binding configurations and a call-log model for coalesce's left-to-right, stop-at-chosen evaluation",
+        "level_text": "has(): exhaustive over field paths of depth 0..4 (dot / index / mixed forms, keys that are also method names), the six binding configurations of the "
+                      "quantifier, four leaf values and nine contexts (top level, operand, negation, all/exists/map/filter/reduce bodies, nested macros, loop variable as root); "
+                      "eight non-absence failures must propagate. coalesce(): every argument list of length 0..4 over eight item kinds (logged present/null, literal null, unbound, "
+                      "absent key, failing call, division by zero, bad index) plus random longer lists, result and call log against the model. Exploration only.",
+        "level_note": "trusts the harness path builder and the logging functions",
+    },
     "C05": {
         "profiles": BOTH,
         "rule": "one evaluation = one execution of a logical/conditional tree (or of a truthiness context); distinct non-trivial = distinct sources whose "
